@@ -66,6 +66,7 @@ def to_py(e):
     if k == 'tup': return t.Tuple[to_py(e[1]), to_py(e[2])]
     if k == 'tuplit': return (to_py(e[1]), to_py(e[2]))       # tuple-of-types shorthand
     if k == 'union': return t.Union[to_py(e[1]), to_py(e[2])]
+    if k == 'unionN': return t.Union[tuple(to_py(c) for c in e[1:])]
     raise ValueError(k)
 
 
@@ -82,6 +83,14 @@ def to_ty(e):
     if k == 'union':
         a, b = to_ty(e[1]), to_ty(e[2])
         return a if (a.k == b.k and not a.a) else Ty('union', [a, b])
+    if k == 'unionN':
+        # a union with a type variable among order-sensitive members: after substitution the members stand in the order written,
+        # a repeated member counting where it FIRST occurs (left-most accepting member wins, so later repeats are inert)
+        flat = []
+        for c in e[1:]:
+            m = to_ty(c)
+            flat.extend(m.a if m.k == 'union' else [m])
+        return flat[0] if len(flat) == 1 else Ty('union', flat)
     raise ValueError(k)
 
 
@@ -113,6 +122,12 @@ CONCRETE = (('int',), ('str',), ('float',), ('bool',), ('list', ('int',)), ('opt
 
 def gen_expr(rng, tvs, depth=2, top=True):
     c = rng.random()
+    if tvs and top and c < 0.1:
+        rest = rng.choice(((('int',), ('float',)), (('float',), ('int',)), (('int',), ('float',), ('str',)), (('bool',), ('int',)), (('str',), ('int',), ('float',))))
+        members = [('tv', rng.choice(tvs))] + list(rest)
+        if rng.random() < 0.3:
+            members = members[1:2] + members[:1] + members[2:]     # the variable in second place
+        return ('unionN',) + tuple(members)
     if tvs and c < 0.45:
         return ('tv', rng.choice(tvs))
     if depth <= 0 or c < 0.6:
